@@ -301,3 +301,160 @@ Proof. unfold dg_ndsum. induction rs as [|[a k] rs IH]; intros [|w ws] H; cbn [l
       - rewrite (dg_sum_scale b m c). unfold dg_sum. ring.
       - intros j _. rewrite (IH' c (fun idx => g (j :: idx))). ring. }
     symmetry. apply G. Qed.
+
+(** * 2. Executable model on Z
+
+    Conventions: eta grids are integer lists (the harness scales the real grids by powers of two);
+    the trapezoid weights are kept doubled ([dg_trap2] = 2 x drMult), so a 4-D value of the model is
+    4 x the value of l2/l1/nParticles (one factor 2 per trapezoid rule), 8 x for KineticEnergy (its
+    [_factor2] carries an extra 0.5) and 2 x for l2 on a 3-D layout: see [dg_denominator].
+    The field is given by its real and imaginary parts as flat C-ordered lists over the global shape
+    [dg_N] in canonical dimension order (r, theta, z [, v]).  [_factor1] is modelled pointwise (the
+    orientation of the outer product written through [.flat] only decides which broadcast axis carries
+    which weight; the tie checks it). *)
+Open Scope Z_scope.
+
+Definition dg_zn (l : list Z) (i : nat) : Z := nth i l 0.
+(** l[s:e] *)
+Definition dg_slice (l : list Z) (s e : nat) : list Z := firstn (e - s) (skipn s l).
+
+(** dr = r[1:] - r[:-1] *)
+Fixpoint dg_diff (x : list Z) : list Z :=
+  match x with a :: ((b :: _) as t) => (b - a) :: dg_diff t | _ => [] end.
+(** [dr[0], dr[1]+dr[0], ..., dr[-1]] = 2 x [dr[0]*0.5, *((dr[1:]+dr[:-1])*0.5), dr[-1]*0.5] *)
+Fixpoint dg_pairsum (prev : Z) (ds : list Z) : list Z :=
+  match ds with [] => [prev] | d :: t => (prev + d) :: dg_pairsum d t end.
+Definition dg_trap2 (x : list Z) : list Z :=
+  match dg_diff x with [] => [] | d0 :: ds => d0 :: dg_pairsum d0 ds end.
+
+Inductive dg_kind := DgL2 | DgL1 | DgN | DgKE.
+(** l2: real(f * conj f); l1: |real f|; nParticles, KineticEnergy: real f *)
+Definition dg_integrand (k : dg_kind) (re im : Z) : Z :=
+  match k with DgL2 => re * re + im * im | DgL1 => Z.abs re | DgN => re | DgKE => re end.
+
+Record dg_cfg := {
+  dg_N : list nat;          (* global shape, canonical dimension order *)
+  dg_world : list nat;      (* extents of the cartesian process grid (Create_cart, row major) *)
+  dg_sel : list nat;        (* distribution direction i of the layout uses grid axis dg_sel[i]
+                               ([0;1] for a LayoutHandler on the whole grid; [0] or [1] for the
+                               sub-handlers of a LayoutSwapper: the layout is then replicated) *)
+  dg_dims : list nat;       (* dims_order of the layout *)
+  dg_etas : list (list Z);  (* eta grids *)
+  dg_re : list Z;
+  dg_im : list Z }.
+
+Definition dg_nprocs (c : dg_cfg) : list nat := map (fun a => nth a (dg_world c) 1%nat) (dg_sel c).
+Definition dg_lcoords (c : dg_cfg) (wc : list nat) : list nat := map (fun a => nth a wc 0%nat) (dg_sel c).
+Definition dg_starts (c : dg_cfg) (wc : list nat) := l_starts (dg_N c) (dg_nprocs c) (dg_dims c) (dg_lcoords c wc).
+Definition dg_ends (c : dg_cfg) (wc : list nat) := l_ends (dg_N c) (dg_nprocs c) (dg_dims c) (dg_lcoords c wc).
+Definition dg_shape (c : dg_cfg) (wc : list nat) := l_shape (dg_N c) (dg_nprocs c) (dg_dims c) (dg_lcoords c wc).
+Definition dg_ndims (c : dg_cfg) : nat := length (dg_dims c).
+Definition dg_eta (c : dg_cfg) (e : nat) : list Z := nth e (dg_etas c) [].
+(** layout.inv_dims_order[e] *)
+Definition dg_inv (c : dg_cfg) (e : nat) : nat := nth e (inv_dims (dg_dims c)) 0%nat.
+
+(** global index in layout axis order -> canonical coordinates -> cell of the flat global field *)
+Definition dg_canon (c : dg_cfg) (g : list nat) : list nat :=
+  map (fun e => nth (dg_inv c e) g 0%nat) (seq 0 (dg_ndims c)).
+Definition dg_cell (F : list Z) (c : dg_cfg) (g : list nat) : Z := dg_zn F (ravel (dg_N c) (dg_canon c g)).
+(** the local array: _f[j] is the global cell j + starts (axis by axis, in layout order) *)
+Definition dg_f (F : list Z) (c : dg_cfg) (st j : list nat) : Z := dg_cell F c (dg_addv st j).
+
+(** (mydrMult * my_r)[j_r] with mydrMult = drMult[start:end], my_r = r[start:end] *)
+Definition dg_rpart (c : dg_cfg) (st en j : list nat) : Z :=
+  let a := dg_inv c 0 in
+  dg_zn (dg_slice (dg_trap2 (dg_eta c 0)) (nth a st 0%nat) (nth a en 0%nat)) (nth a j 0%nat)
+  * dg_zn (dg_slice (dg_eta c 0) (nth a st 0%nat) (nth a en 0%nat)) (nth a j 0%nat).
+(** mydvMult[j_v]  (KineticEnergy: (mydvMult * my_v**2)[j_v]) *)
+Definition dg_vpart (k : dg_kind) (c : dg_cfg) (st en j : list nat) : Z :=
+  let a := dg_inv c 3 in
+  let w := dg_zn (dg_slice (dg_trap2 (dg_eta c 3)) (nth a st 0%nat) (nth a en 0%nat)) (nth a j 0%nat) in
+  match k with
+  | DgKE => let v := dg_zn (dg_slice (dg_eta c 3) (nth a st 0%nat) (nth a en 0%nat)) (nth a j 0%nat) in w * (v * v)
+  | _ => w
+  end.
+Definition dg_factor1 (k : dg_kind) (c : dg_cfg) (st en j : list nat) : Z :=
+  if (dg_ndims c =? 4)%nat then dg_rpart c st en j * dg_vpart k c st en j else dg_rpart c st en j.
+(** dq * dz with dq = q[2]-q[1], dz = z[2]-z[1] (rectangle rule in theta and z) *)
+Definition dg_factor2 (c : dg_cfg) : Z :=
+  (dg_zn (dg_eta c 1) 2 - dg_zn (dg_eta c 1) 1) * (dg_zn (dg_eta c 2) 2 - dg_zn (dg_eta c 2) 1).
+(** the model's integer is [dg_denominator] x the real-valued diagnostic *)
+Definition dg_denominator (k : dg_kind) (c : dg_cfg) : Z :=
+  if (dg_ndims c =? 4)%nat then match k with DgKE => 8 | _ => 4 end else 2.
+
+Definition dg_local_ranges (c : dg_cfg) (wc : list nat) : list (nat * nat) :=
+  map (fun l => (0%nat, l)) (dg_shape c wc).
+
+(** np.sum(integrand(_f) * _factor1) * _factor2 on the rank with grid coordinates wc *)
+Definition dg_local (k : dg_kind) (c : dg_cfg) (wc : list nat) : Z :=
+  let st := dg_starts c wc in let en := dg_ends c wc in
+  dg_ndsum (dg_local_ranges c wc)
+    (fun j => dg_integrand k (dg_f (dg_re c) c st j) (dg_f (dg_im c) c st j) * dg_factor1 k c st en j)
+  * dg_factor2 c.
+
+(** every rank of the world communicator, and comm.Reduce(op=SUM) *)
+Definition dg_all (k : dg_kind) (c : dg_cfg) : list Z := map (dg_local k c) (dg_coords (dg_world c)).
+Definition dg_reduced (k : dg_kind) (c : dg_cfg) : Z := dg_reduce Z.add 0 (dg_all k c).
+
+(** the serial quadrature: the same class on a single process *)
+Definition dg_serial_cfg (c : dg_cfg) : dg_cfg :=
+  {| dg_N := dg_N c; dg_world := map (fun _ => 1%nat) (dg_world c); dg_sel := dg_sel c; dg_dims := dg_dims c;
+     dg_etas := dg_etas c; dg_re := dg_re c; dg_im := dg_im c |}.
+Definition dg_serial (k : dg_kind) (c : dg_cfg) : Z := dg_local k (dg_serial_cfg c) (map (fun _ => 0%nat) (dg_world c)).
+
+(** ** minima and maxima.  [mx = false]: MIN with +inf = None; [mx = true]: MAX with -inf = None *)
+Definition dg_ext (mx : bool) := if mx then dg_omax else dg_omin.
+
+(** _f.min() / _f.max() of the local array (real part), as [collect] stores it *)
+Definition dg_local_ext (mx : bool) (c : dg_cfg) (wc : list nat) : option Z :=
+  dg_ndfold (dg_ext mx) None (dg_local_ranges c wc) (fun j => Some (dg_f (dg_re c) c (dg_starts c wc) j)).
+
+(** getMin / getMax (drawingRank, axis, fixValue): [pairs] = zip(axis, fixValue), global indices.
+    Per layout axis i the fixed global index of dimension dims_order[i], if any. *)
+Definition dg_fixs (c : dg_cfg) (pairs : list (nat * nat)) : list (option nat) :=
+  map (fun d => match find (fun af => (fst af =? d)%nat) pairs with Some af => Some (snd af) | None => None end)
+      (dg_dims c).
+Definition dg_global_ranges (c : dg_cfg) (wc : list nat) : list (nat * nat) := combine (dg_starts c wc) (dg_shape c wc).
+(** what the rank hands to reduce(): neutral if its block is empty or does not contain the fixed indices *)
+Definition dg_local_slice_ext (mx : bool) (c : dg_cfg) (pairs : list (nat * nat)) (wc : list nat) : option Z :=
+  if (size (dg_shape c wc) =? 0)%nat then None
+  else dg_slice_fold (dg_ext mx) None (dg_global_ranges c wc) (dg_fixs c pairs) (fun g => Some (dg_cell (dg_re c) c g)).
+Definition dg_all_ext (mx : bool) (c : dg_cfg) (pairs : list (nat * nat)) : list (option Z) :=
+  map (dg_local_slice_ext mx c pairs) (dg_coords (dg_world c)).
+Definition dg_reduced_ext (mx : bool) (c : dg_cfg) (pairs : list (nat * nat)) : option Z :=
+  dg_reduce (dg_ext mx) None (dg_all_ext mx c pairs).
+(** the collector: MIN / MAX Reduce of the local minima / maxima *)
+Definition dg_collector_ext (mx : bool) (c : dg_cfg) : option Z :=
+  dg_reduce (dg_ext mx) None (map (dg_local_ext mx c) (dg_coords (dg_world c))).
+
+(** guard under which the classes do not raise: shapes consistent, >= 2 radial / velocity points,
+    >= 3 angular / axial points (q[2], z[2]), field lists of the global size *)
+Definition dg_wf (c : dg_cfg) : bool :=
+  (length (dg_N c) =? dg_ndims c)%nat && (length (dg_etas c) =? dg_ndims c)%nat
+  && forallb (fun e => (length (dg_eta c e) =? nth e (dg_N c) 0)%nat) (seq 0 (dg_ndims c))
+  && (2 <=? nth 0 (dg_N c) 0)%nat && (3 <=? nth 1 (dg_N c) 0)%nat && (3 <=? nth 2 (dg_N c) 0)%nat
+  && ((dg_ndims c =? 3)%nat || ((dg_ndims c =? 4)%nat && (2 <=? nth 3 (dg_N c) 0)%nat))
+  && (length (dg_re c) =? size (dg_N c))%nat && (length (dg_im c) =? size (dg_N c))%nat
+  && (length (dg_sel c) <=? dg_ndims c)%nat
+  && forallb (fun p => (1 <=? p)%nat) (dg_world c).
+
+(** ** the collector's time slot: ti = t // dt; idx = ti % saveStep (Python floor division and
+    modulo on integers = Z.div / Z.modulo).  With float arguments Python's t // dt is a float and
+    cannot index the table: that case is outside this model. *)
+Definition dg_slot (t dt saveStep : Z) : Z := (t / dt) mod saveStep.
+
+(** the table after a sequence of collect() calls: slot -> number of the call whose column it holds *)
+Fixpoint dg_store (tab : list (option nat)) (i : nat) (v : nat) : list (option nat) :=
+  match tab, i with
+  | [], _ => []
+  | _ :: t, O => Some v :: t
+  | x :: t, S i' => x :: dg_store t i' v
+  end.
+Fixpoint dg_collect_calls (tab : list (option nat)) (dt saveStep : Z) (n : nat) (ts : list Z) : list (option nat) :=
+  match ts with
+  | [] => tab
+  | t :: ts' => dg_collect_calls (dg_store tab (Z.to_nat (dg_slot t dt saveStep)) n) dt saveStep (S n) ts'
+  end.
+Definition dg_table (dt saveStep : Z) (ts : list Z) : list (option nat) :=
+  dg_collect_calls (repeat None (Z.to_nat saveStep)) dt saveStep 0 ts.
+Close Scope Z_scope.
